@@ -18,6 +18,9 @@ pub fn run(out: &mut Out, tier: &str, rng: &mut Rng) {
             sess::run_case(out, &inst, "sess", &[Ev::Bytes(s[..s.len() - 2].to_vec()), Ev::Close(close)], true);
             // the peer is already gone when its (still readable) bytes are processed: the handshake reply cannot be written
             sess::run_case_wfail(out, &inst, "sess", &[Ev::Bytes(s.clone()), Ev::Close(close)], flags & 0x10 != 0);
+            if flags % 8 == 0 {
+                sess::run_case_window(out, &inst, "sess", &[Ev::Bytes(s.clone()), Ev::Close(close)], flags & 0x10 != 0, 1 + (flags as usize / 8) % 7);
+            }
             out.count(&format!("close {}", close.tok()));
         }
     }
